@@ -11,7 +11,7 @@ _BF = ["blowfish/conf.rs", "blowfish/expand.rs"]
 # are restricted to the plain variant by `variants=blowfish` in their meta lines
 _BC = ["blowfish/conf.rs", "blowfish/expand.rs", "blowfish/bcrypt.rs"]
 PLAN = {
-    "C09": [("blowfish", _BF), ("cast5", ["cast5/conf.rs"]), ("idea", ["idea/conf.rs", "idea/inv16.rs"]), ("rc2", ["rc2/conf.rs"]), ("xtea", ["xtea/conf.rs"])],
+    "C09": [("blowfish", _BF), ("blowfish+bcrypt", _BC), ("cast5", ["cast5/conf.rs"]), ("idea", ["idea/conf.rs", "idea/inv16.rs"]), ("rc2", ["rc2/conf.rs"]), ("xtea", ["xtea/conf.rs"])],
     "C14": [("blowfish+bcrypt", _BC)],
     "C01": [("blowfish", _BF), ("cast5", ["cast5/conf.rs"]), ("idea", ["idea/conf.rs", "idea/inv16.rs", "idea/rt.rs"]), ("rc2", ["rc2/conf.rs", "rc2/rt.rs"]), ("xtea", ["xtea/conf.rs"])],
     "C20": [("blowfish", _BF), ("blowfish+bcrypt", _BC), ("cast5", ["cast5/conf.rs"]), ("idea", ["idea/conf.rs", "idea/inv16.rs"]), ("rc2", ["rc2/conf.rs", "rc2/rt.rs"]), ("xtea", ["xtea/conf.rs"])],
@@ -26,8 +26,9 @@ ASSUMPTIONS = {
     "C01": ["IDEA round trip: the cancellation laws mul(mul(x,k), mul_inv(k)) == x == mul(mul(x, mul_inv(k)), k) imposed on the uninterpreted (mul, mul_inv) pair follow from the solver-decided leaf lemmas idea_leaf_mul (mul is multiplication mod 65537 with 0 = 2^16) and idea_inv_r0..r15 (mul(k, mul_inv(k)) == 1, sixteen argument ranges) by associativity/commutativity of multiplication modulo the prime 65537 (arithmetic, not decided by the solver)",
             "RC2 round trip: L+W -- mix/reverse_mix and mash/reverse_mash are proved mutually inverse on arbitrary round keys (rc2_leaf_*), the block functions are then checked with these leaves as uninterpreted mutually inverse bijections"],
     "C09": [_BF_EXPAND,
-            "RC2 key expansion: conformance of Rc2::expand_key to RFC 2268 is NOT decided by the solver (T/T1 symbolic: no answer in 900 s CaDiCaL / 1800 s Kissat; even (T, T1) = (8, 64) and (16, 128) with symbolic key bytes: no answer in 900 s); decided: absence of panics/overflow for all T in 1..=128 and T1 in 1..=1024 (rc2_expand_safe, thorough) and that the constructors pass (key, 8*len) resp. (key, t1) unchanged to expand_key; the oracle expansion itself is validated natively on the RFC 2268 and repository vectors",
-            "CAST5 key schedule: the leaf lemma cast5_half_schedule needs ~15 GB in goto-instrument (24,741 straight-line instructions; --ensure-one-backedge-per-target is quadratic in that) and is thorough-tier only (mem=30); the quick tier decides the wiring around it (cast5_new_w)"],
+            "RC2 key expansion: decided for ALL key bytes at the (key length, effective length) pairs of rc2_expand_w_* with the table abstracted by position-paired look-ups (variant rc2:route) and for every effective length of the stated ranges with fixed keys (rc2_expand_t1_*); with key length, key bytes and effective length all symbolic in one query it is NOT decided (no answer in 900 s CaDiCaL / 1800 s Kissat); absence of panics/overflow for all T in 1..=128 and T1 in 1..=1024 (rc2_expand_safe, thorough); the constructors pass (key, 8*len) resp. (key, t1) unchanged to expand_key; the oracle expansion is validated natively on the RFC 2268 and repository vectors",
+            "CAST5: the direct queries (rounds against the oracle, half key schedule with the real tables) never answered and stay disabled in conf.rs; CAST5 is decided compositionally in variant cast5:route (see there) plus cast5_new_w for the constructor",
+            "Blowfish::expand_key (what new_from_slice runs) is also decided in the quick tier in the recording form bc_expand_key_rec_k72 / _k7 on the bcrypt feature build, where bc_expand_key is a one-line wrapper of it"],
     "C14": [_BF_EXPAND,
             "bcrypt expansions from an arbitrary pre-state (bc_expand_key_w, bc_salted_w, bc_zero_salt_w) exceed the quick tier's 14 GB during propositional reduction (the 1024-word S-boxes are handled by CBMC's array theory once their contents are symbolic); they are thorough-tier (mem=30); salt length fixed to bcrypt's 16 bytes in bc_salted_w / bc_zero_salt_w, symbolic 1..=16 in the *_anylen_w variants"],
 }
